@@ -32,6 +32,8 @@ func init() {
 		"strings.ToLower":    iToLower,
 		"strings.Index":      iIndex,
 		"strings.Count":      iCount,
+		"strings.TrimLeft":   iTrimLeft,
+		"strconv.ParseBool":  iParseBool,
 
 		"strconv.Atoi":       iAtoi,
 		"strconv.ParseFloat": iParseFloat,
@@ -148,6 +150,64 @@ func iIndex(m *machine, fr *frame, args []value) value {
 	t := rawApp("str.indexof", SInt, s, p, mkInt(0))
 	t.rng, t.lo, t.hi = true, -1, maxStrLen
 	return t
+}
+
+// iTrimLeft: strings.TrimLeft(s, cutset) for a concrete cutset of ASCII
+// characters; at most 4 leading characters are removed (more: outside bound).
+func iTrimLeft(m *machine, fr *frame, args []value) value {
+	s, sc := strArg(args[0])
+	cs, cc := strArg(args[1])
+	if !cc {
+		panic(cut{"strings.TrimLeft with symbolic cutset"})
+	}
+	if sc {
+		return strings.TrimLeft(s.S, cs.S)
+	}
+	for i := 0; i < len(cs.S); i++ {
+		if cs.S[i] >= 0x80 {
+			panic(cut{"strings.TrimLeft with non-ASCII cutset on symbolic string"})
+		}
+	}
+	rem := s
+	for n := 0; ; n++ {
+		found := false
+		for i := 0; i < len(cs.S); i++ {
+			c := mkStr(cs.S[i : i+1])
+			if m.truth(fromTerm(mkPrefixOf(c, rem))) {
+				rem, _ = m.cutPrefix(rem, c)
+				found = true
+				break
+			}
+		}
+		if !found {
+			return fromTerm(rem)
+		}
+		if n >= 4 {
+			panic(cut{"strings.TrimLeft removes more than 4 characters (outside bound)"})
+		}
+	}
+}
+
+func iParseBool(m *machine, fr *frame, args []value) value {
+	s, sc := strArg(args[0])
+	if sc {
+		b, err := strconv.ParseBool(s.S)
+		if err != nil {
+			return tuple{false, m.numError("ParseBool", s.S, false)}
+		}
+		return tuple{b, iface{}}
+	}
+	for _, t := range []string{"1", "t", "T", "TRUE", "true", "True"} {
+		if m.branch(mkStrEq(s, mkStr(t))) {
+			return tuple{true, iface{}}
+		}
+	}
+	for _, f := range []string{"0", "f", "F", "FALSE", "false", "False"} {
+		if m.branch(mkStrEq(s, mkStr(f))) {
+			return tuple{false, iface{}}
+		}
+	}
+	return tuple{false, m.numError("ParseBool", fromTerm(s), false)}
 }
 
 // iCount: strings.Count for a concrete needle over a concatenation whose
